@@ -9,11 +9,11 @@ import nlguard_proofs  # noqa: E402
 sys.path.insert(0, os.path.dirname(os.path.abspath(__file__)))
 import trim_proofs  # noqa: E402
 NEED_OPTIONS = True
-PROOFS = output_proofs.select(['add_text_regular', 'add_char', 'add_spaces']) + tokenizer_proofs.select(['tokenize_strip']) + [outtext_proofs.iteration_proof()] + nlguard_proofs.all_proofs() + [trim_proofs.trim_proof()]
+PROOFS = output_proofs.select(['add_text_regular', 'add_char', 'add_spaces']) + tokenizer_proofs.select(['tokenize_strip', 'tag_compare']) + [outtext_proofs.iteration_proof()] + nlguard_proofs.all_proofs() + [trim_proofs.trim_proof()]
 EXPLANATION = ('Literal half of C03: add_text(text, false, is_literal) calls add_char(text[i], is_literal) for every i in order (loop closed by invariant); '
                'add_char with is_literal and output_tab_as_space off writes every character other than CR/LF unchanged (a TAB after a blank is not expanded), '
                'blanks are buffered and flushed unchanged in front of the next character.')
-K = ['K5 tokenize() strip loop: stripping trailing blanks of a token (a // comment, a preprocessor body) never leaves a backslash as its last character (the next source line would be swallowed by the comment); only blanks/tabs are removed', 'K4 cmt_trim_whitespace (every comment line passes through it): only trailing blanks/tabs are dropped, the text before them is kept position by position, and inside a preprocessor line the continuation backslash stays last', 'K1 add_text(…, is_literal) == sequence of add_char(text[i], is_literal)', 'K1b add_char(ch, literal): pending blanks then ch itself; no tab expansion when is_literal and !output_tab_as_space',
+K = ['K6 tag_compare: the closing delimiter of a raw string literal R"tag(...)tag" is accepted only if it equals the opening one at every position', 'K5 tokenize() strip loop: stripping trailing blanks of a token (a // comment, a preprocessor body) never leaves a backslash as its last character (the next source line would be swallowed by the comment); only blanks/tabs are removed', 'K4 cmt_trim_whitespace (every comment line passes through it): only trailing blanks/tabs are dropped, the text before them is kept position by position, and inside a preprocessor line the continuation backslash stays last', 'K1 add_text(…, is_literal) == sequence of add_char(text[i], is_literal)', 'K1b add_char(ch, literal): pending blanks then ch itself; no tab expansion when is_literal and !output_tab_as_space',
      'K3 newline deletion guard (a comment never swallows the code after it): SafeToDeleteNl() is false for the newline that ends a // comment; convert_brace() and the class/constructor-colon pass respect it',
      'K2 output_text (one iteration): a chunk with text is written by exactly one add_text(str, false, is_literal = Is(CT_STRING)) with cpd.output_tab_as_space == false; each comment chunk goes to the comment writer of its type exactly once']
 G = ['no pass rewrites m_str of string chunks', 'comment half (output_comment_*, add_comment_text, cmt_reflow: std::wregex, std::map) is out of reach of the C++ front end: NOT covered, except the line trimmer cmt_trim_whitespace (K4)',
@@ -22,7 +22,7 @@ MACRO_HEADERS = ['output_macros.h']
 
 sys.path.insert(0, os.path.join(os.path.dirname(os.path.abspath(__file__)), '..', '..', 'tools'))
 import replay_lib  # noqa: E402
-REPLAY = replay_lib.make_replay(replay_lib.scenario_encoding, replay_lib.scenario_whitespace_hygiene)
+REPLAY = replay_lib.make_replay(replay_lib.scenario_raw_string_delimiter, replay_lib.scenario_encoding, replay_lib.scenario_whitespace_hygiene)
 
 
 def static_facts(repo):
